@@ -24,6 +24,10 @@ def full_index_loop(f, ctx, node, bound_keys):
     return None
 
 
+def unk(f, what):
+    raise AnalysisBroken("unknown idiom in %s (%s): %s — the rule cannot be decided for this code shape" % (f.qn, f.loc(), what))
+
+
 def body(chk, db, cfgname):
     W = fld(DMP + "::weights")
     Zp = fld(DMP + "::Z_part")
@@ -32,348 +36,438 @@ def body(chk, db, cfgname):
              ("mcall", "Pomerol::HamiltonianPart::getSize", hp), ("field", "Pomerol::HamiltonianPart::getSize", hp)]
 
     r1 = chk.rule("C09-R1", "weights are exp(-beta(E-E0)), summed into Z over ALL blocks before any normalisation, then all blocks are divided by Z", "F6+F1", 4)
-    f = db.fn(DMP + "::computeUnnormalized", nparams=0)
-    ctx = Ctx(f, db)
-    F = Formula(real_atoms=True)
-    beta = F.name_atom(fld("Pomerol::Thermal::beta"), "beta")
-    E0 = F.name_atom(fld(DMP + "::GroundEnergy"), "E0")
-    asg = [j for j, n in f.walk(f.body) if ((n["k"] == "bin" and n["op"] == "=") or (n["k"] == "call" and n.get("ck") == "op" and n.get("op") == "="))
-           and ctx.key(n["l"] if n["k"] == "bin" else n["args"][0], inline=False)[:3] == ("op", "()", W)]
-    site = DMP + "::computeUnnormalized:weight"
-    exparg = None
-    if len(asg) != 1:
-        r1.bad(site, f.loc(), "weights(s) is assigned %d times" % len(asg), cfgname)
-    else:
-        A = asg[0]
-        n = f.nodes[A]
-        lk = ctx.key(n["l"] if n["k"] == "bin" else n["args"][0], inline=False)
-        s_ = lk[3]
-        shp = full_index_loop(f, ctx, A, wsize)
-        Es = F.name_atom(("mcall", "Pomerol::HamiltonianPart::getEigenValue", hp, s_), "E_s")
-        got = F.conv(ctx.key(n["r"] if n["k"] == "bin" else n["args"][1]))
-        want = sp.exp(-beta * (Es - E0))
-        if shp is None or shp["var"][:2] != s_[:2]:
-            r1.bad(site, f.loc(A), "weights are not assigned for every state s in [0, block size)", cfgname)
-        elif F.equal(got, want):
-            r1.ok(site, f.loc(A), "weights(s) = exp(-beta*(E_s - GroundEnergy)) for every s", cfgname)
-            exparg = exp_args(got)
-        else:
-            r1.bad(site, f.loc(A), "weights(s) = %s, the Gibbs weight is %s%s" % (got, want, lh.wit(F, got, want)), cfgname)
-        # Z_part
-        site = DMP + "::computeUnnormalized:Z_part"
-        acc = [j for j, n2 in f.walk(f.body) if ((n2["k"] == "bin" and n2["op"] == "+=") or (n2["k"] == "call" and n2.get("ck") == "op" and n2.get("op") == "+=")) and
-               ctx.key(n2["l"] if n2["k"] == "bin" else n2["args"][0]) == Zp]
-        zero = [j for j, n2 in f.walk(f.body) if n2["k"] == "bin" and n2["op"] == "=" and ctx.key(n2["l"]) == Zp and ctx.key(n2["r"]) == ("lit", 0)]
-        rets = [j for j, n2 in f.walk(f.body) if n2["k"] == "return" and n2.get("sub") is not None and ctx.key(n2["sub"]) == Zp]
-        good = len(acc) == 1 and len(zero) == 1 and rets and full_index_loop(f, ctx, acc[0], wsize) is not None
-        if good:
-            n2 = f.nodes[acc[0]]
-            rk = ctx.key(n2["r"] if n2["k"] == "bin" else n2["args"][1], inline=False)
-            good = rk == ("op", "()", W, s_) and not enclosing_loops(f, zero[0]) and f.cfg.dominates(f.cfg.pos1(A), f.cfg.pos1(acc[0]))
-        if good:
-            r1.ok(site, f.loc(acc[0]), "Z_part = 0; Z_part += weights(s) in the same loop; returned", cfgname)
-        else:
-            r1.bad(site, f.loc(), "the partial partition function is not the sum of all weights of the block (reset, accumulate after assignment, return)", cfgname)
-    g = db.fn(DM + "::compute", nparams=0)
-    gctx = Ctx(g, db)
-    site = DM + "::compute:two-phase"
-    loops = []
-    for j, n in g.walk(g.body):
-        if n["k"] == "for":
-            shp = loop_shape(g, gctx, j)
-            loops.append((j, shp))
-    ph1 = ph2 = None
-    norm_calls = [jj for jj, nn in g.walk(g.body) if nn["k"] == "call" and strip_targs(nn.get("cname") or "") == DMP + "::normalize"]
-    cu_calls = [jj for jj, nn in g.walk(g.body) if nn["k"] == "call" and strip_targs(nn.get("cname") or "") == DMP + "::computeUnnormalized"]
-    for j, shp in loops:
-        if shp["kind"] == "iter" and shp["bound"] == fld(DM + "::parts") and not shp["exits"]:
-            for jj, nn in g.walk(shp["body"]):
-                if nn["k"] == "call" and strip_targs(nn.get("cname") or "") == DMP + "::computeUnnormalized":
-                    ph1 = (j, shp, jj)
-                if nn["k"] == "call" and strip_targs(nn.get("cname") or "") == DMP + "::normalize":
-                    ph2 = (j, shp, jj)
-    good = False
-    why = "the partition function is not accumulated over all blocks in one full loop and applied in a second full loop"
-    if len(norm_calls) != 1 or len(cu_calls) != 1:
-        why = "computeUnnormalized() / normalize() are not each called from exactly one place (%d / %d): a block is normalised twice or with a partial sum" % (len(cu_calls), len(norm_calls))
-    elif ph1 and ph2 and ph1[0] != ph2[0]:
-        h1, b1 = g.cfg.loop_blocks(ph1[0])
-        h2, b2 = g.cfg.loop_blocks(ph2[0])
-        zk = gctx.key(g.nodes[ph2[2]]["args"][0], inline=False)
-        # Z accumulates every computeUnnormalized()
-        accs = [m for m in gctx.mut.get(zk[1], [])] if zk[0] == "var" else []
-        acc_ok = len(accs) == 1 and g.nodes[accs[0]]["k"] == "bin" and g.nodes[accs[0]]["op"] == "+=" and g.nodes[accs[0]]["r"] == ph1[2] and \
-            gctx.key(gctx.decls[zk[1]]["init"]) == ("lit", 0)
-        after = g.cfg.dominates_block(h1, h2) and h2 not in b1
-        if acc_ok and after:
-            good = True
-        elif not after:
-            why = "blocks are normalised before the total partition function is known (normalisation inside / before the accumulation loop)"
-        else:
-            why = "the value handed to normalize() is not the sum of computeUnnormalized() over all blocks starting from 0"
-    elif ph1 and ph2:
-        why = "normalisation happens inside the loop that accumulates Z: early blocks are divided by a partial sum"
-    if good:
-        r1.ok(site, g.loc(), "Z = sum over all parts of computeUnnormalized(); then normalize(Z) for all parts", cfgname)
-    else:
-        r1.bad(site, g.loc(), why, cfgname)
-    h = db.fn(DMP + "::normalize", nparams=1)
-    hctx = Ctx(h, db)
-    Zk = ("param", h.params[0]["d"], h.params[0]["n"])
-    divs = {}
-    for j, n in h.walk(h.body):
-        if (n["k"] == "bin" and n["op"] == "/=") or (n["k"] == "call" and n.get("ck") == "op" and n.get("op") == "/="):
-            l = n["l"] if n["k"] == "bin" else n["args"][0]
-            r = n["r"] if n["k"] == "bin" else n["args"][1]
-            divs[hctx.key(l)] = hctx.key(r)
-    site = DMP + "::normalize"
-    if divs.get(W) == Zk and divs.get(Zp) == Zk:
-        r1.ok(site, h.loc(), "weights /= Z and Z_part /= Z", cfgname)
-    else:
-        r1.bad(site, h.loc(), "normalize(Z) does not divide both the weights and the partial partition function by Z", cfgname)
 
+    def _sec_r1():
+        f = db.fn(DMP + "::computeUnnormalized", nparams=0)
+        ctx = Ctx(f, db)
+        F = Formula(real_atoms=True)
+        beta = F.name_atom(fld("Pomerol::Thermal::beta"), "beta")
+        E0 = F.name_atom(fld(DMP + "::GroundEnergy"), "E0")
+        asg = [j for j, n in f.walk(f.body) if ((n["k"] == "bin" and n["op"] == "=") or (n["k"] == "call" and n.get("ck") == "op" and n.get("op") == "="))
+               and ctx.key(n["l"] if n["k"] == "bin" else n["args"][0], inline=False)[:3] == ("op", "()", W)]
+        site = DMP + "::computeUnnormalized:weight"
+        exparg = None
+        if len(asg) != 1:
+            unk(f, "weights are not assigned element-wise as weights(s) = ... (%d such assignments)" % len(asg))
+        else:
+            A = asg[0]
+            n = f.nodes[A]
+            lk = ctx.key(n["l"] if n["k"] == "bin" else n["args"][0], inline=False)
+            s_ = lk[3]
+            shp = full_index_loop(f, ctx, A, wsize)
+            Es = F.name_atom(("mcall", "Pomerol::HamiltonianPart::getEigenValue", hp, s_), "E_s")
+            got = F.conv(ctx.key(n["r"] if n["k"] == "bin" else n["args"][1]))
+            want = sp.exp(-beta * (Es - E0))
+            if shp is None:
+                anyloop = [loop_shape(f, ctx, x) for x in enclosing_loops(f, A)]
+                if any(x["kind"] == "index" and x["var"] is not None and x["var"][:2] == s_[:2] for x in anyloop):
+                    r1.bad(site, f.loc(A), "weights are not assigned for every state s in [0, block size): the loop over s is not full-range", cfgname)
+                    return
+                unk(f, "the weight assignment is not inside an index loop")
+            elif shp["var"][:2] != s_[:2]:
+                r1.bad(site, f.loc(A), "weights are not assigned for every state s in [0, block size)", cfgname)
+            elif F.equal(got, want):
+                r1.ok(site, f.loc(A), "weights(s) = exp(-beta*(E_s - GroundEnergy)) for every s", cfgname)
+                exparg = exp_args(got)
+            else:
+                r1.bad(site, f.loc(A), "weights(s) = %s, the Gibbs weight is %s%s" % (got, want, lh.wit(F, got, want)), cfgname)
+            # Z_part
+            site = DMP + "::computeUnnormalized:Z_part"
+            acc = [j for j, n2 in f.walk(f.body) if ((n2["k"] == "bin" and n2["op"] == "+=") or (n2["k"] == "call" and n2.get("ck") == "op" and n2.get("op") == "+=")) and
+                   ctx.key(n2["l"] if n2["k"] == "bin" else n2["args"][0]) == Zp]
+            zero = [j for j, n2 in f.walk(f.body) if n2["k"] == "bin" and n2["op"] == "=" and ctx.key(n2["l"]) == Zp and ctx.key(n2["r"]) == ("lit", 0)]
+            rets = [j for j, n2 in f.walk(f.body) if n2["k"] == "return" and n2.get("sub") is not None and ctx.key(n2["sub"]) == Zp]
+            good = len(acc) == 1 and len(zero) == 1 and rets and full_index_loop(f, ctx, acc[0], wsize) is not None
+            if good:
+                n2 = f.nodes[acc[0]]
+                rk = ctx.key(n2["r"] if n2["k"] == "bin" else n2["args"][1], inline=False)
+                good = rk == ("op", "()", W, s_) and not enclosing_loops(f, zero[0]) and f.cfg.dominates(f.cfg.pos1(A), f.cfg.pos1(acc[0]))
+            if good:
+                r1.ok(site, f.loc(acc[0]), "Z_part = 0; Z_part += weights(s) in the same loop; returned", cfgname)
+            else:
+                r1.bad(site, f.loc(), "the partial partition function is not the sum of all weights of the block (reset, accumulate after assignment, return)", cfgname)
+        g = db.fn(DM + "::compute", nparams=0)
+        gctx = Ctx(g, db)
+        site = DM + "::compute:two-phase"
+        loops = []
+        for j, n in g.walk(g.body):
+            if n["k"] == "for":
+                shp = loop_shape(g, gctx, j)
+                loops.append((j, shp))
+        ph1 = ph2 = None
+        norm_calls = [jj for jj, nn in g.walk(g.body) if nn["k"] == "call" and strip_targs(nn.get("cname") or "") == DMP + "::normalize"]
+        cu_calls = [jj for jj, nn in g.walk(g.body) if nn["k"] == "call" and strip_targs(nn.get("cname") or "") == DMP + "::computeUnnormalized"]
+        for j, shp in loops:
+            if shp["kind"] == "iter" and shp["bound"] == fld(DM + "::parts") and not shp["exits"]:
+                for jj, nn in g.walk(shp["body"]):
+                    if nn["k"] == "call" and strip_targs(nn.get("cname") or "") == DMP + "::computeUnnormalized":
+                        ph1 = (j, shp, jj)
+                    if nn["k"] == "call" and strip_targs(nn.get("cname") or "") == DMP + "::normalize":
+                        ph2 = (j, shp, jj)
+        good = False
+        why = "the partition function is not accumulated over all blocks in one full loop and applied in a second full loop"
+        if len(norm_calls) != 1 or len(cu_calls) != 1:
+            why = "computeUnnormalized() / normalize() are not each called from exactly one place (%d / %d): a block is normalised twice or with a partial sum" % (len(cu_calls), len(norm_calls))
+        elif ph1 and ph2 and ph1[0] != ph2[0]:
+            h1, b1 = g.cfg.loop_blocks(ph1[0])
+            h2, b2 = g.cfg.loop_blocks(ph2[0])
+            zk = gctx.key(g.nodes[ph2[2]]["args"][0], inline=False)
+            # Z accumulates every computeUnnormalized()
+            accs = [m for m in gctx.mut.get(zk[1], [])] if zk[0] == "var" else []
+            acc_ok = len(accs) == 1 and g.nodes[accs[0]]["k"] == "bin" and g.nodes[accs[0]]["op"] == "+=" and g.nodes[accs[0]]["r"] == ph1[2] and \
+                gctx.key(gctx.decls[zk[1]]["init"]) == ("lit", 0)
+            after = g.cfg.dominates_block(h1, h2) and h2 not in b1
+            if acc_ok and after:
+                good = True
+            elif not after:
+                why = "blocks are normalised before the total partition function is known (normalisation inside / before the accumulation loop)"
+            else:
+                why = "the value handed to normalize() is not the sum of computeUnnormalized() over all blocks starting from 0"
+        elif ph1 and ph2:
+            why = "normalisation happens inside the loop that accumulates Z: early blocks are divided by a partial sum"
+        if good:
+            r1.ok(site, g.loc(), "Z = sum over all parts of computeUnnormalized(); then normalize(Z) for all parts", cfgname)
+        else:
+            r1.bad(site, g.loc(), why, cfgname)
+        h = db.fn(DMP + "::normalize", nparams=1)
+        hctx = Ctx(h, db)
+        Zk = ("param", h.params[0]["d"], h.params[0]["n"])
+        divs = {}
+        for j, n in h.walk(h.body):
+            if (n["k"] == "bin" and n["op"] == "/=") or (n["k"] == "call" and n.get("ck") == "op" and n.get("op") == "/="):
+                l = n["l"] if n["k"] == "bin" else n["args"][0]
+                r = n["r"] if n["k"] == "bin" else n["args"][1]
+                divs[hctx.key(l)] = hctx.key(r)
+        site = DMP + "::normalize"
+        if divs.get(W) == Zk and divs.get(Zp) == Zk:
+            r1.ok(site, h.loc(), "weights /= Z and Z_part /= Z", cfgname)
+        else:
+            r1.bad(site, h.loc(), "normalize(Z) does not divide both the weights and the partial partition function by Z", cfgname)
+
+    with r1.guard("r1:section", "(see detail)", cfgname):
+        _sec_r1()
     r2 = chk.rule("C09-R2", "overflow safety: the exp argument is -beta*(E - global ground energy) <= 0; every block gets the global ground energy and its own Hamiltonian block", "F6 sign domain + F5", 2)
-    p = db.fn(DM + "::prepare", nparams=0)
-    pctx = Ctx(p, db)
-    news = [j for j, n in p.walk(p.body) if n["k"] == "new" and n["at"] == DMP]
-    site = DM + "::prepare:part-arguments"
-    if len(news) != 1:
-        raise AnalysisBroken("DensityMatrix::prepare: expected one new DensityMatrixPart")
-    N = news[0]
-    nk = pctx.key(N)
-    a = nk[2]
-    par = p.parent_map().get(N)
-    pn = p.nodes[par]
-    lk = pctx.key(pn["l"], inline=False) if pn["k"] == "bin" and pn["op"] == "=" else None
-    shp = full_index_loop(p, pctx, N, [("mcall", "std::vector::size", fld(DM + "::parts")), ("mcall", "Pomerol::StatesClassification::NumberOfBlocks", fld(DM + "::S")),
-                                       ("ctor", "Pomerol::BlockNumber", ("mcall", "std::vector::size", fld(DM + "::parts")))])
-    good = False
-    if shp is not None and lk is not None and len(a) == 6:
-        nvar = shp["var"]
-        idxk = lh.strip_conv(lk[3]) if lk[0] == "op" and lk[1] == "[]" else None
-        from checks.c07 import deconv
-        good = lk[0] == "op" and lk[2] == fld(DM + "::parts") and deconv(lk[3])[:2] == nvar[:2] and \
-            a[3][0] == "mcall" and a[3][1] == "Pomerol::Hamiltonian::getPart" and a[3][2] == fld(DM + "::H") and deconv(a[3][3])[:2] == nvar[:2] and \
-            a[4] == fld("Pomerol::Thermal::beta") and a[5] in (("field", "Pomerol::Hamiltonian::GroundEnergy", fld(DM + "::H")), ("mcall", "Pomerol::Hamiltonian::getGroundEnergy", fld(DM + "::H")))
-    if good:
-        r2.ok(site, p.loc(N), "parts[n] = DensityMatrixPart(S, H.getPart(n), beta, H.getGroundEnergy()) for every block n", cfgname)
-    else:
-        r2.bad(site, p.loc(N), "a block's density-matrix part is not built from its own Hamiltonian block, beta and the GLOBAL ground energy (with a per-block energy offset the weights of different blocks are not in the ratio exp(-beta dE); with none they overflow)", cfgname)
-    ctor = [x for x in db.fns_named(DMP + "::DensityMatrixPart") if x.kind == "ctor" and len(x.params) == 4]
-    site = DMP + "::DensityMatrixPart:member-binding"
-    good = False
-    if len(ctor) == 1:
-        c = ctor[0]
-        cctx = Ctx(c, db)
-        m = {i.get("field"): cctx.key(i["e"]) for i in c.d.get("inits", []) if i.get("field")}
-        bases = [cctx.key(i["e"]) for i in c.d.get("inits", []) if i.get("base") and "Thermal" in i["base"]]
-        pk = [("param", q["d"], q["n"]) for q in c.params]
-        good = m.get("S") == pk[0] and m.get("hpart") == pk[1] and m.get("GroundEnergy") == pk[3] and bases and key_contains(bases[0], lambda y: y == pk[2]) and m.get("retained") == ("lit", 1)
-    if good:
-        r2.ok(site, c.loc(), "(S, hpart, beta, GroundEnergy) initialise the members of the same role; retained = true", cfgname)
-    else:
-        r2.bad(site, ctor[0].loc() if ctor else p.loc(), "constructor parameters are not stored in the members of the same role", cfgname)
-    ge = db.fn("Pomerol::Hamiltonian::computeGroundEnergy", nparams=0)
-    gectx = Ctx(ge, db)
-    site = "Pomerol::Hamiltonian::computeGroundEnergy"
-    asg = [j for j, n in ge.walk(ge.body) if n["k"] == "bin" and n["op"] == "=" and gectx.key(n["l"]) == fld("Pomerol::Hamiltonian::GroundEnergy")]
-    good = False
-    if len(asg) == 1:
-        rk = gectx.key(ge.nodes[asg[0]]["r"], inline=False)
-        if rk[0] == "mcall" and rk[1].endswith("::minCoeff") and rk[2][0] == "var":
-            vec = rk[2]
-            fills = [m for m in gectx.mut.get(vec[1], [])]
-            for m in fills:
-                mn = ge.nodes[m]
-                if mn["k"] == "bin" and mn["op"] == "=":
-                    shp = full_index_loop(ge, gectx, m, [("mcall", "std::vector::size", fld("Pomerol::Hamiltonian::parts")), ("ctor", "Pomerol::BlockNumber", ("mcall", "std::vector::size", fld("Pomerol::Hamiltonian::parts"))),
-                                                          ("mcall", "Pomerol::StatesClassification::NumberOfBlocks", fld("Pomerol::Hamiltonian::S"))])
-                    rr = gectx.key(mn["r"])
-                    if shp is not None and rr[0] == "mcall" and rr[1] == "Pomerol::HamiltonianPart::getMinimumEigenvalue" and key_contains(rr, lambda y: y[:2] == shp["var"][:2]) and \
-                            key_contains(gectx.key(mn["l"], inline=False), lambda y: y[:2] == shp["var"][:2]):
-                        good = True
-    mev = db.fn("Pomerol::HamiltonianPart::getMinimumEigenvalue", nparams=0)
-    mctx = Ctx(mev, db)
-    mins = [j for j, n in mev.walk(mev.body) if n["k"] == "return" and mctx.key(n["sub"]) == ("mcall", "Eigen::DenseBase::minCoeff", fld("Pomerol::HamiltonianPart::Eigenvalues"))]
-    if good and mins:
-        r2.ok(site, ge.loc(), "GroundEnergy = min over all blocks of the block's minimal eigenvalue, hence E - GroundEnergy >= 0 and the exp argument is <= 0 for beta > 0", cfgname)
-    else:
-        r2.bad(site, ge.loc(), "the ground energy is not the minimum over ALL blocks of the blocks' minimal eigenvalues: weights exp(-beta(E-E0)) can overflow", cfgname)
 
+    def _sec_r2():
+        p = db.fn(DM + "::prepare", nparams=0)
+        pctx = Ctx(p, db)
+        news = [j for j, n in p.walk(p.body) if n["k"] == "new" and n["at"] == DMP]
+        site = DM + "::prepare:part-arguments"
+        if len(news) != 1:
+            raise AnalysisBroken("DensityMatrix::prepare: expected one new DensityMatrixPart")
+        N = news[0]
+        nk = pctx.key(N)
+        a = nk[2]
+        par = p.parent_map().get(N)
+        pn = p.nodes[par]
+        lk = pctx.key(pn["l"], inline=False) if pn["k"] == "bin" and pn["op"] == "=" else None
+        shp = full_index_loop(p, pctx, N, [("mcall", "std::vector::size", fld(DM + "::parts")), ("mcall", "Pomerol::StatesClassification::NumberOfBlocks", fld(DM + "::S")),
+                                           ("ctor", "Pomerol::BlockNumber", ("mcall", "std::vector::size", fld(DM + "::parts")))])
+        good = False
+        if shp is not None and lk is not None and len(a) == 6:
+            nvar = shp["var"]
+            idxk = lh.strip_conv(lk[3]) if lk[0] == "op" and lk[1] == "[]" else None
+            from checks.c07 import deconv
+            good = lk[0] == "op" and lk[2] == fld(DM + "::parts") and deconv(lk[3])[:2] == nvar[:2] and \
+                a[3][0] == "mcall" and a[3][1] == "Pomerol::Hamiltonian::getPart" and a[3][2] == fld(DM + "::H") and deconv(a[3][3])[:2] == nvar[:2] and \
+                a[4] == fld("Pomerol::Thermal::beta") and a[5] in (("field", "Pomerol::Hamiltonian::GroundEnergy", fld(DM + "::H")), ("mcall", "Pomerol::Hamiltonian::getGroundEnergy", fld(DM + "::H")))
+        if good:
+            r2.ok(site, p.loc(N), "parts[n] = DensityMatrixPart(S, H.getPart(n), beta, H.getGroundEnergy()) for every block n", cfgname)
+        else:
+            r2.bad(site, p.loc(N), "a block's density-matrix part is not built from its own Hamiltonian block, beta and the GLOBAL ground energy (with a per-block energy offset the weights of different blocks are not in the ratio exp(-beta dE); with none they overflow)", cfgname)
+        ctor = [x for x in db.fns_named(DMP + "::DensityMatrixPart") if x.kind == "ctor" and len(x.params) == 4]
+        site = DMP + "::DensityMatrixPart:member-binding"
+        good = False
+        if len(ctor) == 1:
+            c = ctor[0]
+            cctx = Ctx(c, db)
+            m = {i.get("field"): cctx.key(i["e"]) for i in c.d.get("inits", []) if i.get("field")}
+            bases = [cctx.key(i["e"]) for i in c.d.get("inits", []) if i.get("base") and "Thermal" in i["base"]]
+            pk = [("param", q["d"], q["n"]) for q in c.params]
+            good = m.get("S") == pk[0] and m.get("hpart") == pk[1] and m.get("GroundEnergy") == pk[3] and bases and key_contains(bases[0], lambda y: y == pk[2]) and m.get("retained") == ("lit", 1)
+        if good:
+            r2.ok(site, c.loc(), "(S, hpart, beta, GroundEnergy) initialise the members of the same role; retained = true", cfgname)
+        else:
+            r2.bad(site, ctor[0].loc() if ctor else p.loc(), "constructor parameters are not stored in the members of the same role", cfgname)
+        ge = db.fn("Pomerol::Hamiltonian::computeGroundEnergy", nparams=0)
+        gectx = Ctx(ge, db)
+        site = "Pomerol::Hamiltonian::computeGroundEnergy"
+        asg = [j for j, n in ge.walk(ge.body) if n["k"] == "bin" and n["op"] == "=" and gectx.key(n["l"]) == fld("Pomerol::Hamiltonian::GroundEnergy")]
+        good = False
+        if len(asg) == 1:
+            rk = gectx.key(ge.nodes[asg[0]]["r"], inline=False)
+            if rk[0] == "mcall" and rk[1].endswith("::minCoeff") and rk[2][0] == "var":
+                vec = rk[2]
+                fills = [m for m in gectx.mut.get(vec[1], [])]
+                for m in fills:
+                    mn = ge.nodes[m]
+                    if mn["k"] == "bin" and mn["op"] == "=":
+                        shp = full_index_loop(ge, gectx, m, [("mcall", "std::vector::size", fld("Pomerol::Hamiltonian::parts")), ("ctor", "Pomerol::BlockNumber", ("mcall", "std::vector::size", fld("Pomerol::Hamiltonian::parts"))),
+                                                              ("mcall", "Pomerol::StatesClassification::NumberOfBlocks", fld("Pomerol::Hamiltonian::S"))])
+                        rr = gectx.key(mn["r"])
+                        if shp is not None and rr[0] == "mcall" and rr[1] == "Pomerol::HamiltonianPart::getMinimumEigenvalue" and key_contains(rr, lambda y: y[:2] == shp["var"][:2]) and \
+                                key_contains(gectx.key(mn["l"], inline=False), lambda y: y[:2] == shp["var"][:2]):
+                            good = True
+        mev = db.fn("Pomerol::HamiltonianPart::getMinimumEigenvalue", nparams=0)
+        mctx = Ctx(mev, db)
+        mins = [j for j, n in mev.walk(mev.body) if n["k"] == "return" and mctx.key(n["sub"]) == ("mcall", "Eigen::DenseBase::minCoeff", fld("Pomerol::HamiltonianPart::Eigenvalues"))]
+        if good and mins:
+            r2.ok(site, ge.loc(), "GroundEnergy = min over all blocks of the block's minimal eigenvalue, hence E - GroundEnergy >= 0 and the exp argument is <= 0 for beta > 0", cfgname)
+        else:
+            r2.bad(site, ge.loc(), "the ground energy is not the minimum over ALL blocks of the blocks' minimal eigenvalues: weights exp(-beta(E-E0)) can overflow", cfgname)
+
+        # --- every exp() in the weight computation: invariant under a common energy shift, argument <= 0
+        cu = db.fn(DMP + "::computeUnnormalized", nparams=0)
+        cctx2 = Ctx(cu, db)
+        from pv.symenv import env_at, value_key
+        envs = env_at(cu, cctx2)
+        exps = []
+        for j, n in cu.walk(cu.body):
+            if n["k"] == "call" and n["ck"] == "func" and strip_targs(n.get("cname") or "") in ("exp", "std::exp") and len(n["args"]) == 1:
+                exps.append((j, value_key(cu, cctx2, envs, n["args"][0], j)))
+            elif n["k"] == "call" and n["ck"] == "method" and strip_targs(n.get("cname") or "").startswith("Eigen::") and strip_targs(n.get("cname") or "").endswith("::exp"):
+                exps.append((j, value_key(cu, cctx2, envs, n["obj"], j)))
+        site = DMP + "::computeUnnormalized:exp-arguments"
+        if not exps:
+            raise AnalysisBroken("no exp() found in DensityMatrixPart::computeUnnormalized: the Gibbs weight is computed by an unknown idiom")
+        Fx = Formula(real_atoms=True)
+        bsym = Fx.name_atom(fld("Pomerol::Thermal::beta"), "beta")
+        e0 = Fx.name_atom(fld(DMP + "::GroundEnergy"), "E0")
+        E = sp.Symbol("E", real=True)
+        hp_ = fld(DMP + "::hpart")
+
+        def energy_atoms(k):
+            # any eigenvalue of this block (scalar accessor, whole vector, or the member itself) is "an energy E >= E0"
+            if k[0] == "mcall" and k[1] in ("Pomerol::HamiltonianPart::getEigenValue", "Pomerol::HamiltonianPart::getEigenValues") and k[2] == hp_:
+                return True
+            if k[0] == "field" and k[1] == "Pomerol::HamiltonianPart::Eigenvalues" and k[2] == hp_:
+                return True
+            return False
+        from pv.expr import key_subst as _ks
+        problems = []
+        for j, ak in exps:
+            ak2 = _ks(ak, lambda k: ("energy",) if energy_atoms(k) else None)
+            Fx.syms[("energy",)] = E
+            ex = Fx.conv(ak2)
+            extra = [s_ for s_ in ex.free_symbols if s_ not in (bsym, e0, E)]
+            if extra:
+                raise AnalysisBroken("exp argument %s contains quantities the sign analysis does not know (%s)" % (ex, extra))
+            dlt = sp.Symbol("Delta", real=True)       # E = E0 + Delta, Delta >= 0
+            ex2 = sp.expand(ex.subs(E, e0 + dlt))
+            if e0 in ex2.free_symbols:
+                problems.append((j, "exp(%s) depends on the absolute energy offset (not only on E - GroundEnergy): it overflows or underflows to 0 for a large offset or large beta*|E0| although the weights themselves are well defined" % ex))
+                continue
+            from pv.formula import nonpositive
+            if nonpositive(ex2, {bsym: "+", dlt: "0+"}) is not True:
+                problems.append((j, "exp(%s) can have a positive argument for beta > 0 and E >= GroundEnergy" % ex))
+        if problems:
+            r2.bad(site, cu.loc(problems[0][0]), "; ".join(p_[1] for p_ in problems), cfgname)
+        else:
+            r2.ok(site, cu.loc(exps[0][0]), "%d exp() call(s): arguments depend on E - GroundEnergy only and are <= 0" % len(exps), cfgname)
+    with r2.guard("r2:section", "(see detail)", cfgname):
+        _sec_r2()
     r3 = chk.rule("C09-R3", "averages are weighted sums over eigenvectors expanded in the Fock states of the part's own block", "F5+F6", 8)
-    f = db.fn(DMP + "::getAverageEnergy", nparams=0)
-    ctx = Ctx(f, db)
-    acc = [j for j, n in f.walk(f.body) if n["k"] == "bin" and n["op"] == "+="]
-    site = DMP + "::getAverageEnergy"
-    good = False
-    if len(acc) == 1:
-        shp = full_index_loop(f, ctx, acc[0], wsize)
-        if shp is not None:
-            s_ = shp["var"]
+
+    def _sec_r3():
+        f = db.fn(DMP + "::getAverageEnergy", nparams=0)
+        ctx = Ctx(f, db)
+        acc = [j for j, n in f.walk(f.body) if n["k"] == "bin" and n["op"] == "+="]
+        site = DMP + "::getAverageEnergy"
+        good = False
+        if len(acc) == 1:
+            shp = full_index_loop(f, ctx, acc[0], wsize)
+            if shp is not None:
+                s_ = shp["var"]
+                F = Formula()
+                w = F.name_atom(("op", "()", W, s_), "w_s")
+                e = F.name_atom(("mcall", "Pomerol::HamiltonianPart::getEigenValue", hp, s_), "E_s")
+                got = F.conv(ctx.key(f.nodes[acc[0]]["r"], inline=False))
+                good = F.equal(got, w * e) and starts_zero_and_returned(f, ctx, acc[0])
+        if good:
+            r3.ok(site, f.loc(), "sum_s weights(s)*E_s", cfgname)
+        else:
+            r3.bad(site, f.loc(), "average energy is not sum over all states s of weights(s)*getEigenValue(s)", cfgname)
+        occ = [(DMP + "::getAverageOccupancy", 0, "count"), (DMP + "::getAverageOccupancy", 1, "test"), (DMP + "::getAverageDoubleOccupancy", 2, "pair")]
+        for qn, npar, kind in occ:
+            f = db.fn(qn, nparams=npar)
+            ctx = Ctx(f, db)
+            site = "%s/%d" % (qn, npar)
+            acc = [j for j, n in f.walk(f.body) if n["k"] == "bin" and n["op"] == "+="]
+            if len(acc) != 1:
+                unk(f, "expected one accumulation statement n += ..., found %d" % len(acc))
+            A = acc[0]
+            L = enclosing_loops(f, A)
+            shapes = [loop_shape(f, ctx, x) for x in L]
+            outer = [s for s in shapes if s["kind"] == "index" and s["bound"] in wsize and s["start"] == ("lit", 0) and not s["exits"]]
+            probs = []
+            if len(outer) != 1:
+                unk(f, "the accumulation is not inside a full index loop over the eigenstates of the block")
+            s_ = outer[0]["var"]
+            vec = ("mcall", "Pomerol::HamiltonianPart::getEigenState", hp, s_)
+            inner = [s for s in shapes if s is not outer[0] and s["kind"] == "index" and s["start"] == ("lit", 0) and not s["exits"] and
+                     s["bound"][0] == "mcall" and s["bound"][1].endswith("::size") and s["bound"][2] == vec]
+            if len(inner) != 1:
+                inner_any = [s for s in shapes if s is not outer[0] and s["kind"] == "index"]
+                if inner_any:
+                    r3.bad(site, f.loc(A), "the inner loop does not run over all Fock components of eigenvector s (bound must be the size of hpart.getEigenState(s), from 0)", cfgname)
+                    continue
+                unk(f, "no inner index loop over the Fock components of the eigenvector")
+            fi = inner[0]["var"]
             F = Formula()
             w = F.name_atom(("op", "()", W, s_), "w_s")
-            e = F.name_atom(("mcall", "Pomerol::HamiltonianPart::getEigenValue", hp, s_), "E_s")
-            got = F.conv(ctx.key(f.nodes[acc[0]]["r"], inline=False))
-            good = F.equal(got, w * e) and starts_zero_and_returned(f, ctx, acc[0])
-    if good:
-        r3.ok(site, f.loc(), "sum_s weights(s)*E_s", cfgname)
-    else:
-        r3.bad(site, f.loc(), "average energy is not sum over all states s of weights(s)*getEigenValue(s)", cfgname)
-    occ = [(DMP + "::getAverageOccupancy", 0, "count"), (DMP + "::getAverageOccupancy", 1, "test"), (DMP + "::getAverageDoubleOccupancy", 2, "pair")]
-    for qn, npar, kind in occ:
-        f = db.fn(qn, nparams=npar)
-        ctx = Ctx(f, db)
-        site = "%s/%d" % (qn, npar)
-        acc = [j for j, n in f.walk(f.body) if n["k"] == "bin" and n["op"] == "+="]
-        if len(acc) != 1:
-            r3.bad(site, f.loc(), "expected one accumulation statement", cfgname)
-            continue
-        A = acc[0]
-        L = enclosing_loops(f, A)
-        shapes = [loop_shape(f, ctx, x) for x in L]
-        outer = [s for s in shapes if s["kind"] == "index" and s["bound"] in wsize and s["start"] == ("lit", 0) and not s["exits"]]
-        probs = []
-        if len(outer) != 1:
-            r3.bad(site, f.loc(A), "no full loop over the eigenstates s of the block", cfgname)
-            continue
-        s_ = outer[0]["var"]
-        vec = ("mcall", "Pomerol::HamiltonianPart::getEigenState", hp, s_)
-        inner = [s for s in shapes if s is not outer[0] and s["kind"] == "index" and s["start"] == ("lit", 0) and not s["exits"] and
-                 s["bound"][0] == "mcall" and s["bound"][1].endswith("::size") and s["bound"][2] == vec]
-        if len(inner) != 1:
-            r3.bad(site, f.loc(A), "no full loop over the Fock components of eigenvector s (bound must be the size of hpart.getEigenState(s))", cfgname)
-            continue
-        fi = inner[0]["var"]
-        F = Formula()
-        w = F.name_atom(("op", "()", W, s_), "w_s")
-        v = F.name_atom(("op", "()", vec, fi), "v_sf")
-        fock = ("mcall", "Pomerol::StatesClassification::getFockState", fld(DMP + "::S"), ("mcall", "Pomerol::HamiltonianPart::getBlockNumber", hp), fi)
-        fock2 = ("mcall", "Pomerol::StatesClassification::getFockState", fld(DMP + "::S"), ("field", "Pomerol::HamiltonianPart::Block", hp), fi)
-        if kind == "count":
-            gs = [F.name_atom(("mcall", "boost::dynamic_bitset::count", fk), "n_f") for fk in (fock,)]
-            F.alias[("mcall", "boost::dynamic_bitset::count", fock2)] = ("mcall", "boost::dynamic_bitset::count", fock)
-            gexp = gs[0]
-        elif kind == "test":
-            i_ = ("param", f.params[0]["d"], f.params[0]["n"])
-            F.alias[("mcall", "boost::dynamic_bitset::test", fock2, i_)] = ("mcall", "boost::dynamic_bitset::test", fock, i_)
-            gexp = F.name_atom(("mcall", "boost::dynamic_bitset::test", fock, i_), "bit_i")
-        else:
-            i_, j_ = [("param", q["d"], q["n"]) for q in f.params]
-            F.alias[("op", "[]", fock2, i_)] = ("op", "[]", fock, i_)
-            F.alias[("op", "[]", fock2, j_)] = ("op", "[]", fock, j_)
-            gexp = F.name_atom(("op", "[]", fock, i_), "bit_i") * F.name_atom(("op", "[]", fock, j_), "bit_j")
-        got = F.conv(unbool(ctx.key(f.nodes[A]["r"])))
-        # |v*v|: complex build keeps abs of the product; real build too
-        want1 = w * gexp * sp.Abs(v * v)
-        want2 = w * gexp * sp.Abs(v) ** 2
-        want3 = w * gexp * v * sp.conjugate(v)
-        if F.equal(got, want1) or F.equal(got, want2) or F.equal(got, want3):
-            if starts_zero_and_returned(f, ctx, A):
-                r3.ok(site, f.loc(A), "sum_s w_s sum_f g(Fock(block,f)) |v_s(f)|^2 with f over the part's own block", cfgname)
+            v = F.name_atom(("op", "()", vec, fi), "v_sf")
+            fock = ("mcall", "Pomerol::StatesClassification::getFockState", fld(DMP + "::S"), ("mcall", "Pomerol::HamiltonianPart::getBlockNumber", hp), fi)
+            fock2 = ("mcall", "Pomerol::StatesClassification::getFockState", fld(DMP + "::S"), ("field", "Pomerol::HamiltonianPart::Block", hp), fi)
+            if kind == "count":
+                gs = [F.name_atom(("mcall", "boost::dynamic_bitset::count", fk), "n_f") for fk in (fock,)]
+                F.alias[("mcall", "boost::dynamic_bitset::count", fock2)] = ("mcall", "boost::dynamic_bitset::count", fock)
+                gexp = gs[0]
+            elif kind == "test":
+                i_ = ("param", f.params[0]["d"], f.params[0]["n"])
+                F.alias[("mcall", "boost::dynamic_bitset::test", fock2, i_)] = ("mcall", "boost::dynamic_bitset::test", fock, i_)
+                gexp = F.name_atom(("mcall", "boost::dynamic_bitset::test", fock, i_), "bit_i")
             else:
-                r3.bad(site, f.loc(A), "accumulator does not start at 0 / is not what is returned", cfgname)
-        else:
-            r3.bad(site, f.loc(A), "contribution is %s, expected %s: (eigen-index s for the weight and the eigenvector, Fock position f of the part's own block, |v|^2)" % (got, want1), cfgname)
-    # DensityMatrix sums over all parts
-    for qn, npar in ((DM + "::getAverageEnergy", 0), (DM + "::getAverageOccupancy", 0), (DM + "::getAverageOccupancy", 1), (DM + "::getAverageDoubleOccupancy", 2)):
-        f = db.fn(qn, nparams=npar)
-        ctx = Ctx(f, db)
-        site = "%s/%d" % (qn, npar)
-        good = False
-        for j, n in f.walk(f.body):
-            if n["k"] == "for":
-                shp = loop_shape(f, ctx, j)
-                if shp["kind"] == "iter" and shp["bound"] == fld(DM + "::parts") and not shp["exits"]:
-                    for jj, nn in f.walk(shp["body"]):
-                        if nn["k"] == "bin" and nn["op"] == "+=":
-                            rk = ctx.key(nn["r"], inline=False)
-                            want_args = tuple(("param", q["d"], q["n"]) for q in f.params)
-                            if rk[0] == "mcall" and rk[1] == qn.replace(DM, DMP) and rk[2] in (("op", "*", shp["var"]), ("un", "*", shp["var"])) and tuple(rk[3:]) == want_args and starts_zero_and_returned(f, ctx, jj):
-                                good = True
-        if good:
-            r3.ok(site, f.loc(), "sum over all parts of the part's value at the same arguments", cfgname)
-        else:
-            r3.bad(site, f.loc(), "does not add the corresponding part average of every block (same arguments, from 0)", cfgname)
+                i_, j_ = [("param", q["d"], q["n"]) for q in f.params]
+                F.alias[("op", "[]", fock2, i_)] = ("op", "[]", fock, i_)
+                F.alias[("op", "[]", fock2, j_)] = ("op", "[]", fock, j_)
+                gexp = F.name_atom(("op", "[]", fock, i_), "bit_i") * F.name_atom(("op", "[]", fock, j_), "bit_j")
+            got = F.conv(unbool(ctx.key(f.nodes[A]["r"])))
+            # |v*v|: complex build keeps abs of the product; real build too
+            want1 = w * gexp * sp.Abs(v * v)
+            want2 = w * gexp * sp.Abs(v) ** 2
+            want3 = w * gexp * v * sp.conjugate(v)
+            if F.equal(got, want1) or F.equal(got, want2) or F.equal(got, want3):
+                if starts_zero_and_returned(f, ctx, A):
+                    r3.ok(site, f.loc(A), "sum_s w_s sum_f g(Fock(block,f)) |v_s(f)|^2 with f over the part's own block", cfgname)
+                else:
+                    r3.bad(site, f.loc(A), "accumulator does not start at 0 / is not what is returned", cfgname)
+            else:
+                r3.bad(site, f.loc(A), "contribution is %s, expected %s: (eigen-index s for the weight and the eigenvector, Fock position f of the part's own block, |v|^2)" % (got, want1), cfgname)
+        # DensityMatrix sums over all parts
+        for qn, npar in ((DM + "::getAverageEnergy", 0), (DM + "::getAverageOccupancy", 0), (DM + "::getAverageOccupancy", 1), (DM + "::getAverageDoubleOccupancy", 2)):
+            f = db.fn(qn, nparams=npar)
+            ctx = Ctx(f, db)
+            site = "%s/%d" % (qn, npar)
+            good = False
+            for j, n in f.walk(f.body):
+                if n["k"] == "for":
+                    shp = loop_shape(f, ctx, j)
+                    if shp["kind"] == "iter" and shp["bound"] == fld(DM + "::parts") and not shp["exits"]:
+                        for jj, nn in f.walk(shp["body"]):
+                            if nn["k"] == "bin" and nn["op"] == "+=":
+                                rk = ctx.key(nn["r"], inline=False)
+                                want_args = tuple(("param", q["d"], q["n"]) for q in f.params)
+                                if rk[0] == "mcall" and rk[1] == qn.replace(DM, DMP) and rk[2] in (("op", "*", shp["var"]), ("un", "*", shp["var"])) and tuple(rk[3:]) == want_args and starts_zero_and_returned(f, ctx, jj):
+                                    good = True
+            if good:
+                r3.ok(site, f.loc(), "sum over all parts of the part's value at the same arguments", cfgname)
+            else:
+                r3.bad(site, f.loc(), "does not add the corresponding part average of every block (same arguments, from 0)", cfgname)
 
+    with r3.guard("r3:section", "(see detail)", cfgname):
+        _sec_r3()
+    r5 = chk.rule("C09-R5", "index-space consistency: no variable is used both as an eigenstate number and as a Fock position", "F5 index spaces", 4)
+
+    def _sec_r5():
+        from pv import roles
+        scope = [x for x in db.fns.values() if x.rec in (DMP, DM, EA) and x.body is not None and x.body >= 0]
+        for x in sorted(scope, key=lambda y: (y.file, y.line)):
+            bad, nuse = roles.conflicts(x, db)
+            if nuse == 0:
+                continue
+            site = "%s/%d:index-roles" % (x.qn, len(x.params))
+            if bad:
+                nm, lst = bad[0]
+                r5.bad(site, x.loc(lst[0][2]), "variable '%s' is used as %s: an eigenstate number and a Fock position are confused (e.g. a column of the eigenvector matrix is taken where a row is meant, so |U^T|^2 replaces |U|^2)" % (
+                    nm, " and as ".join(sorted({"%s index (%s)" % (r, d) for r, d, _ in lst}))), cfgname)
+            else:
+                r5.ok(site, x.loc(), "%d typed index uses, each variable in one space" % nuse, cfgname)
+
+    with r5.guard("r5:section", "(see detail)", cfgname):
+        _sec_r5()
     r4 = chk.rule("C09-R4", "ensemble average of c+_i c_j: only diagonal blocks, every bimap entry visited, contribution sum_n A(n,n) w(n) with the block's own data", "F5+F1", 2)
-    f = db.fn(EA + "::prepare", nparams=0)
-    ctx = Ctx(f, db)
-    at = guard_facts(f, ctx)
-    calls = f.calls(cname=EA + "::compute")
-    site = EA + "::prepare"
-    good = False
-    why = "expected one call of compute() inside a full loop over the left view of A's block map"
-    if len(calls) == 1:
-        C = calls[0]
-        L = enclosing_loops(f, C)
-        shp = loop_shape(f, ctx, L[0]) if L else None
-        Am = fld(EA + "::A")
-        okloop = shp is not None and shp["kind"] == "iter" and not shp["exits"] and shp["bound"][0] == "field" and shp["bound"][1].endswith("::left") and \
-            shp["bound"][2] in (("mcall", "Pomerol::FieldOperator::getBlockMapping", Am), ("field", "Pomerol::FieldOperator::LeftRightBlocks", Am))
-        if okloop:
-            it = shp["var"]
-            fa = at.get(f.cfg.pos1(C), frozenset())
-            rw = lh.rw_facts(fa)
-            left = None
-            right = None
-            for d, v in ctx.decls.items():
-                if v.get("init") is None:
-                    continue
-                k0 = lh.strip_conv(ctx.key(v["init"], inline=False))
-                if k0[0] == "field" and k0[2] in (("op", "->", it), ("op", "*", it)):
-                    if k0[1].endswith("::first"):
-                        left = rw(lh.strip_cast(ctx.key(v["init"])))
-                    if k0[1].endswith("::second"):
-                        right = rw(lh.strip_cast(ctx.key(v["init"])))
-            k = ctx.key(C)
-            args = [rw(lh.strip_cast(x)) for x in k[3:]]
-            diag = left is not None and left == right
-            want = [("mcall", "Pomerol::FieldOperator::getPartFromLeftIndex", Am, left), ("mcall", "Pomerol::Hamiltonian::getPart", fld(EA + "::H"), left),
-                    ("mcall", "Pomerol::DensityMatrix::getPart", fld(EA + "::DM"), left)]
-            par = f.parent_map().get(C)
-            accum = f.nodes[par]["k"] in ("bin", "call") and (f.nodes[par].get("op") == "+=")
-            if not diag:
-                why = "off-diagonal blocks (left != right) contribute to the trace"
-            elif args != want:
-                why = "compute() is not given the operator part, Hamiltonian block and density-matrix block of the same diagonal block"
-            elif not accum:
-                why = "block contributions are not accumulated with +="
-            else:
-                good = True
-    if good:
-        r4.ok(site, f.loc(), "for every (L -> R) with L == R: result += compute(A[L], H[L], DM[L])", cfgname)
-    else:
-        r4.bad(site, f.loc(), why, cfgname)
-    f = db.fn(EA + "::compute", nparams=3)
-    ctx = Ctx(f, db)
-    Ap, Hp, Dp = [("param", q["d"], q["n"]) for q in f.params]
-    acc = [j for j, n in f.walk(f.body) if (n["k"] == "call" and n.get("ck") == "op" and n.get("op") == "+=") or (n["k"] == "bin" and n["op"] == "+=")]
-    site = EA + "::compute"
-    good = False
-    if len(acc) == 1:
-        A = acc[0]
-        n = f.nodes[A]
-        rhs = n["args"][1] if n["k"] == "call" else n["r"]
-        Amat = ("field", lh.FOP + lh.ROWMAJOR, Ap)
-        Acol = ("field", lh.FOP + lh.COLMAJOR, Ap)
-        shp = full_index_loop(f, ctx, A, [("mcall", "Eigen::SparseMatrix::outerSize", Amat), ("mcall", "Eigen::SparseMatrix::rows", Amat), ("mcall", "Eigen::SparseMatrix::cols", Amat),
-                                         ("mcall", "Eigen::SparseMatrix::outerSize", Acol)])
-        if shp is not None:
-            n_ = shp["var"]
-            F = Formula()
-            a = F.name_atom(("mcall", "Eigen::SparseMatrix::coeff", Amat, n_, n_), "A_nn")
-            F.alias[("mcall", "Eigen::SparseMatrix::coeff", Acol, n_, n_)] = ("mcall", "Eigen::SparseMatrix::coeff", Amat, n_, n_)
-            w = F.name_atom(("mcall", DMP + "::getWeight", Dp, n_), "w_n")
-            got = F.conv(ctx.key(rhs))
-            good = F.equal(got, a * w) and starts_zero_and_returned(f, ctx, A)
-    if good:
-        r4.ok(site, f.loc(), "sum_n A(n,n)*w(n) over all n of the block", cfgname)
-    else:
-        r4.bad(site, f.loc(), "block contribution is not sum over all n of A(n,n)*DMpart.getWeight(n)", cfgname)
 
+    def _sec_r4():
+        f = db.fn(EA + "::prepare", nparams=0)
+        ctx = Ctx(f, db)
+        at = guard_facts(f, ctx)
+        calls = f.calls(cname=EA + "::compute")
+        site = EA + "::prepare"
+        good = False
+        why = "expected one call of compute() inside a full loop over the left view of A's block map"
+        if len(calls) == 1:
+            C = calls[0]
+            L = enclosing_loops(f, C)
+            shp = loop_shape(f, ctx, L[0]) if L else None
+            Am = fld(EA + "::A")
+            okloop = shp is not None and shp["kind"] == "iter" and not shp["exits"] and shp["bound"][0] == "field" and shp["bound"][1].endswith("::left") and \
+                shp["bound"][2] in (("mcall", "Pomerol::FieldOperator::getBlockMapping", Am), ("field", "Pomerol::FieldOperator::LeftRightBlocks", Am))
+            if okloop:
+                it = shp["var"]
+                fa = at.get(f.cfg.pos1(C), frozenset())
+                rw = lh.rw_facts(fa)
+                left = None
+                right = None
+                for d, v in ctx.decls.items():
+                    if v.get("init") is None:
+                        continue
+                    k0 = lh.strip_conv(ctx.key(v["init"], inline=False))
+                    if k0[0] == "field" and k0[2] in (("op", "->", it), ("op", "*", it)):
+                        if k0[1].endswith("::first"):
+                            left = rw(lh.strip_cast(ctx.key(v["init"])))
+                        if k0[1].endswith("::second"):
+                            right = rw(lh.strip_cast(ctx.key(v["init"])))
+                k = ctx.key(C)
+                args = [rw(lh.strip_cast(x)) for x in k[3:]]
+                diag = left is not None and left == right
+                want = [("mcall", "Pomerol::FieldOperator::getPartFromLeftIndex", Am, left), ("mcall", "Pomerol::Hamiltonian::getPart", fld(EA + "::H"), left),
+                        ("mcall", "Pomerol::DensityMatrix::getPart", fld(EA + "::DM"), left)]
+                par = f.parent_map().get(C)
+                accum = f.nodes[par]["k"] in ("bin", "call") and (f.nodes[par].get("op") == "+=")
+                if not diag:
+                    why = "off-diagonal blocks (left != right) contribute to the trace"
+                elif args != want:
+                    why = "compute() is not given the operator part, Hamiltonian block and density-matrix block of the same diagonal block"
+                elif not accum:
+                    why = "block contributions are not accumulated with +="
+                else:
+                    good = True
+        if good:
+            r4.ok(site, f.loc(), "for every (L -> R) with L == R: result += compute(A[L], H[L], DM[L])", cfgname)
+        else:
+            r4.bad(site, f.loc(), why, cfgname)
+        f = db.fn(EA + "::compute", nparams=3)
+        ctx = Ctx(f, db)
+        Ap, Hp, Dp = [("param", q["d"], q["n"]) for q in f.params]
+        acc = [j for j, n in f.walk(f.body) if (n["k"] == "call" and n.get("ck") == "op" and n.get("op") == "+=") or (n["k"] == "bin" and n["op"] == "+=")]
+        site = EA + "::compute"
+        good = False
+        if len(acc) == 1:
+            A = acc[0]
+            n = f.nodes[A]
+            rhs = n["args"][1] if n["k"] == "call" else n["r"]
+            Amat = ("field", lh.FOP + lh.ROWMAJOR, Ap)
+            Acol = ("field", lh.FOP + lh.COLMAJOR, Ap)
+            shp = full_index_loop(f, ctx, A, [("mcall", "Eigen::SparseMatrix::outerSize", Amat), ("mcall", "Eigen::SparseMatrix::rows", Amat), ("mcall", "Eigen::SparseMatrix::cols", Amat),
+                                             ("mcall", "Eigen::SparseMatrix::outerSize", Acol)])
+            if shp is not None:
+                n_ = shp["var"]
+                F = Formula()
+                a = F.name_atom(("mcall", "Eigen::SparseMatrix::coeff", Amat, n_, n_), "A_nn")
+                F.alias[("mcall", "Eigen::SparseMatrix::coeff", Acol, n_, n_)] = ("mcall", "Eigen::SparseMatrix::coeff", Amat, n_, n_)
+                w = F.name_atom(("mcall", DMP + "::getWeight", Dp, n_), "w_n")
+                got = F.conv(ctx.key(rhs))
+                good = F.equal(got, a * w) and starts_zero_and_returned(f, ctx, A)
+        if good:
+            r4.ok(site, f.loc(), "sum_n A(n,n)*w(n) over all n of the block", cfgname)
+        else:
+            r4.bad(site, f.loc(), "block contribution is not sum over all n of A(n,n)*DMpart.getWeight(n)", cfgname)
+
+
+
+    with r4.guard("r4:section", "(see detail)", cfgname):
+        _sec_r4()
     chk.undecided.append("finiteness for extreme beta*bandwidth beyond the sign argument of R2; trace identities at the value level; normalisation to one up to rounding")
-
-
 def unbool(k):
     return k
 
